@@ -92,6 +92,29 @@ pub struct LifeCase {
 // ---------------------------------------------------------------------------------------------
 // Grammar bodies (shared by the recursive form and by the unrolling)
 
+thread_local! {
+    /// Pratt binding powers of the case being built (prefix, infix-right, third operator); derived
+    /// from the case's shape seed so that replay needs nothing else.
+    static BP: std::cell::Cell<[u16; 3]> = const { std::cell::Cell::new([3, 1, 2]) };
+}
+
+/// Half of the cases keep the template's own powers; the other half draw each from 0..=3
+/// (binding power 0 is legal and is what the loosest operator of a real grammar often has).
+fn set_bp(shape_seed: u64) {
+    let s = crate::prng::mix64(shape_seed ^ 0xB1D);
+    let v = if s & 1 == 0 { [u16::MAX, u16::MAX, u16::MAX] } else { [((s >> 8) % 4) as u16, ((s >> 16) % 4) as u16, ((s >> 24) % 4) as u16] };
+    BP.with(|b| b.set(v));
+}
+
+fn bp(i: usize, default: u16) -> u16 {
+    let v = BP.with(|b| b.get())[i];
+    if v == u16::MAX {
+        default
+    } else {
+        v
+    }
+}
+
 fn pad<'a>(p: BX<'a>, pads: &[u8]) -> BX<'a> {
     let mut p = p;
     for k in pads {
@@ -133,9 +156,9 @@ fn body<'a>(t: Tmpl, pads: &[u8], me: BX<'a>, other: Option<BX<'a>>, second: boo
         Tmpl::PrattGroup => {
             let atom = just(b'x').to((0u64, 0u64)).or(me.delimited_by(just(b'('), just(b')')).map(|(d, m)| (d + 1, m)));
             atom.pratt((
-                prefix(3, just(b'-'), |_, r: O, _| (r.0, r.1 + 1)),
-                infix(right(1), just(b'^'), |l: O, _, r: O, _| (l.0.max(r.0), l.1 + r.1 + 1)),
-                infix(left(2), just(b'+'), |l: O, _, r: O, _| (l.0.max(r.0), l.1 + r.1 + 1)),
+                prefix(bp(0, 3), just(b'-'), |_, r: O, _| (r.0, r.1 + 1)),
+                infix(right(bp(1, 1)), just(b'^'), |l: O, _, r: O, _| (l.0.max(r.0), l.1 + r.1 + 1)),
+                infix(left(bp(2, 2)), just(b'+'), |l: O, _, r: O, _| (l.0.max(r.0), l.1 + r.1 + 1)),
             ))
             .boxed()
         }
@@ -154,9 +177,9 @@ fn body<'a>(t: Tmpl, pads: &[u8], me: BX<'a>, other: Option<BX<'a>>, second: boo
 fn pratt_chain<'a>(pads: &[u8]) -> BX<'a> {
     let atom = pad(just(b'x').to((0u64, 0u64)).boxed(), pads);
     atom.pratt((
-        prefix(2, just(b'-'), |_, r: O, _| (r.0, r.1 + 1)),
-        infix(right(1), just(b'^'), |l: O, _, r: O, _| (l.0.max(r.0), l.1 + r.1 + 1)),
-        postfix(3, just(b'!'), |l: O, _, _| (l.0, l.1 + 1)),
+        prefix(bp(0, 2), just(b'-'), |_, r: O, _| (r.0, r.1 + 1)),
+        infix(right(bp(1, 1)), just(b'^'), |l: O, _, r: O, _| (l.0.max(r.0), l.1 + r.1 + 1)),
+        postfix(bp(2, 3), just(b'!'), |l: O, _, _| (l.0, l.1 + 1)),
     ))
     .boxed()
 }
@@ -437,6 +460,7 @@ pub enum OpResult {
 /// Build the recursive parser in the requested form and run the lifecycle history. Runs on the
 /// resource-limited thread.
 fn run_history<'a>(c: &LifeCase, input: &'a [u8]) -> Vec<OpResult> {
+    set_bp(c.shape_seed);
     let mut pool: Vec<H<'a>> = Vec::new();
     match (c.tmpl, c.form) {
         (Tmpl::PrattChain, _) => pool.push(H::Bx(pratt_chain(&c.pads))),
@@ -509,6 +533,7 @@ fn run_history<'a>(c: &LifeCase, input: &'a [u8]) -> Vec<OpResult> {
 fn run_unrolled(c: &LifeCase, input: &[u8], check: bool) -> Outcome {
     let openers = openers(c.tmpl);
     let k = input.iter().filter(|b| openers.contains(b)).count() + 2;
+    set_bp(c.shape_seed);
     let r = catch_unwind(AssertUnwindSafe(|| {
         let u = unroll(c.tmpl, &c.pads, k);
         let o = if check { norm_chk(u.check(input)) } else { norm(u.parse(input)) };
